@@ -26,10 +26,13 @@ SOURCES = {
             ('util/base.py', ['rowgroupby'])],
     'C10': [(T + 'dedup.py', ['iterduplicates', 'iterunique', 'iterconflicts', 'DistinctView', 'isunique'])],
     'C12': [(T + 'basics.py', ['itercut', 'itercutout', 'itercat', 'iterstack', 'iteraddfield', 'iteraddfields', 'MoveFieldView', 'iterannex',
-                               'iteraddrownumbers', 'iteraddcolumn']),
+                               'iteraddrownumbers', 'iteraddcolumn', 'CutView', 'CutOutView', 'CatView', 'StackView', 'AddFieldView',
+                               'AddFieldsView', 'AnnexView', 'AddRowNumbersView', 'AddColumnView']),
             (T + 'headers.py', ['iterrename', 'itersetheader', 'iterextendheader', 'iterpushheader', 'iterskip', 'PrefixHeaderView',
-                                'SuffixHeaderView', 'SortHeaderView']),
-            (T + 'fills.py', ['iterfilldown', 'iterfillright', 'iterfillleft']), (T + 'conversions.py', ['iterfieldconvert']),
+                                'SuffixHeaderView', 'SortHeaderView', 'RenameView', 'SetHeaderView', 'ExtendHeaderView', 'PushHeaderView',
+                                'SkipView']),
+            (T + 'fills.py', ['iterfilldown', 'iterfillright', 'iterfillleft', 'FillDownView', 'FillRightView', 'FillLeftView']),
+            (T + 'conversions.py', ['iterfieldconvert', 'FieldConvertView', 'convert', 'convertall', 'replace', 'replaceall', 'update']),
             ('util/base.py', ['asindices', 'rowgetter', 'itervalues', 'iterdata', 'iterdicts', 'iternamedtuples', 'iterrecords', 'Record'])],
     'C13': [(T + 'selects.py', ['iterfieldselect', 'iterrowselect', 'rowlenselect', 'biselect', 'facet']),
             (T + 'basics.py', ['iterrowslice', 'head', 'itertail']), (T + 'headers.py', ['iterskip'])],
